@@ -5,6 +5,7 @@
 package main
 
 import (
+	"encoding/json"
 	"flag"
 	"fmt"
 	"go/ast"
@@ -17,14 +18,60 @@ import (
 	"strings"
 )
 
-type constSpec struct {
-	file string // path relative to repo
-	name string // Go constant / variable name
-	lean string // Lean definition name
+// Fact is one entry of /verif/facts/<Area>.json.
+//
+//	{"kind":"const", "file":"server/id/id.go", "name":"allocStep", "lean":"allocStep"}
+//	{"kind":"locked_func", "file":"server/id/id.go", "func":"allocatorImpl.Alloc", "mutex":"alloc.mu", "lean":"allocLocked"}
+//	{"kind":"call_order", "file":"...", "func":"T.f", "first":"saveX", "then":"publishY", "lean":"persistBeforePublish"}
+//
+// Further kinds are registered from kind_*.go files through Register.
+type Fact struct {
+	Kind  string `json:"kind"`
+	File  string `json:"file"`
+	Name  string `json:"name"`
+	Func  string `json:"func"`
+	Mutex string `json:"mutex"`
+	First string `json:"first"`
+	Then  string `json:"then"`
+	Lean  string `json:"lean"`
+	Args  map[string]string `json:"args"`
 }
 
-var consts = []constSpec{
-	{"server/id/id.go", "allocStep", "allocStep"},
+// Kind computes the Lean definition text (without the leading doc comment) of a fact.
+type Kind func(repo string, f Fact) (string, error)
+
+var kinds = map[string]Kind{}
+
+// Register adds a fact kind.
+func Register(name string, k Kind) { kinds[name] = k }
+
+var constCache = map[string]pkgConsts{}
+
+func init() {
+	Register("const", func(repo string, f Fact) (string, error) {
+		dir := filepath.Dir(f.File)
+		env, ok := constCache[dir]
+		if !ok {
+			var err error
+			env, err = collect(filepath.Join(repo, f.File))
+			if err != nil {
+				return "", err
+			}
+			constCache[dir] = env
+		}
+		e, ok := env[f.Name]
+		if !ok {
+			return "", fmt.Errorf("constant %s not found in %s", f.Name, dir)
+		}
+		v, err := eval(e, env, 0)
+		if err != nil {
+			return "", err
+		}
+		if v.Sign() < 0 {
+			return fmt.Sprintf("def %s : Int := %s", f.Lean, v.String()), nil
+		}
+		return fmt.Sprintf("def %s : Nat := %s", f.Lean, v.String()), nil
+	})
 }
 
 var timeUnits = map[string]int64{
@@ -133,50 +180,61 @@ func eval(e ast.Expr, env pkgConsts, depth int) (*big.Int, error) {
 	return nil, fmt.Errorf("unsupported expr %T", e)
 }
 
+
 func main() {
 	repo := flag.String("repo", "/repo", "repository root")
+	facts := flag.String("facts", "/verif/facts", "directory of <Area>.json fact lists")
+	out := flag.String("out", "", "directory for Generated/<Area>.lean (empty: print to stdout)")
 	flag.Parse()
-	var lines []string
-	cache := map[string]pkgConsts{}
+	files, _ := filepath.Glob(filepath.Join(*facts, "*.json"))
+	sort.Strings(files)
 	failed := false
-	for _, c := range consts {
-		dir := filepath.Dir(c.file)
-		env, ok := cache[dir]
-		if !ok {
-			var err error
-			env, err = collect(filepath.Join(*repo, c.file))
-			if err != nil {
-				fmt.Fprintf(os.Stderr, "factgen: %s: %v\n", c.file, err)
+	for _, fp := range files {
+		area := strings.TrimSuffix(filepath.Base(fp), ".json")
+		b, err := os.ReadFile(fp)
+		if err != nil {
+			fmt.Fprintln(os.Stderr, "factgen:", err)
+			failed = true
+			continue
+		}
+		var fs []Fact
+		if err := json.Unmarshal(b, &fs); err != nil {
+			fmt.Fprintf(os.Stderr, "factgen: %s: %v\n", fp, err)
+			failed = true
+			continue
+		}
+		var sb strings.Builder
+		sb.WriteString("-- GENERATED by /verif/harness/cmd/factgen from the Go sources; do not edit.\n")
+		sb.WriteString("namespace PdModel.Generated." + area + "\n")
+		for _, f := range fs {
+			k, ok := kinds[f.Kind]
+			if !ok {
+				fmt.Fprintf(os.Stderr, "FACT-ERROR %s: unknown fact kind %q\n", area, f.Kind)
 				failed = true
 				continue
 			}
-			cache[dir] = env
+			def, err := k(*repo, f)
+			if err != nil {
+				fmt.Fprintf(os.Stderr, "FACT-ERROR %s: %s %s %s%s: %v\n", area, f.Kind, f.File, f.Name, f.Func, err)
+				failed = true
+				continue
+			}
+			fmt.Fprintf(&sb, "/-- %s %s %s%s -/\n%s\n", f.Kind, f.File, f.Name, f.Func, def)
 		}
-		e, ok := env[c.name]
-		if !ok {
-			fmt.Fprintf(os.Stderr, "factgen: constant %s not found in %s\n", c.name, dir)
-			failed = true
+		sb.WriteString("end PdModel.Generated." + area + "\n")
+		if *out == "" {
+			fmt.Print(sb.String())
 			continue
 		}
-		v, err := eval(e, env, 0)
-		if err != nil {
-			fmt.Fprintf(os.Stderr, "factgen: %s.%s: %v\n", dir, c.name, err)
-			failed = true
-			continue
-		}
-		if v.Sign() < 0 {
-			lines = append(lines, fmt.Sprintf("/-- %s : %s -/\ndef %s : Int := %s", c.file, c.name, c.lean, v.String()))
-		} else {
-			lines = append(lines, fmt.Sprintf("/-- %s : %s -/\ndef %s : Nat := %s", c.file, c.name, c.lean, v.String()))
+		p := filepath.Join(*out, area+".lean")
+		old, _ := os.ReadFile(p)
+		if string(old) != sb.String() {
+			if err := os.WriteFile(p, []byte(sb.String()), 0o644); err != nil {
+				fmt.Fprintln(os.Stderr, "factgen:", err)
+				failed = true
+			}
 		}
 	}
-	sort.Strings(lines)
-	fmt.Println("-- GENERATED by /verif/harness/cmd/factgen from the Go sources; do not edit.")
-	fmt.Println("namespace PdModel.Generated")
-	for _, l := range lines {
-		fmt.Println(l)
-	}
-	fmt.Println("end PdModel.Generated")
 	if failed {
 		os.Exit(3)
 	}
